@@ -227,3 +227,45 @@ def subscribed_pipeline(seed=1, batches=40, min_pushes=1500, max_seconds=12.0):
         return problems, stats
     finally:
         srv.stop()
+
+
+def subscriber_idle_reply(gaps=(2.6,)):
+    """A subscribed connection that has received a push stays idle for a while and then issues ordinary commands: every
+    command still gets its reply (whatever per-connection state delivering a push leaves behind - deadlines, buffers -
+    must not outlive the push)."""
+    srv = server.Server()
+    problems, stats = [], {"gaps": list(gaps), "replies": 0}
+    try:
+        conns = []
+        pub = srv.client(timeout=10.0)
+        for i, gap in enumerate(gaps):
+            s = _conn(srv.port, timeout=15.0)
+            s.sendall(server.encode(["SUBSCRIBE", "idle-%d" % i]))
+            v, buf = _read_value(s, b"", False, None)
+            conns.append([s, buf, gap, i])
+        for s, buf, gap, i in conns:
+            pub.cmd("PUBLISH", "idle-%d" % i, "hello")
+        for c in conns:
+            v, c[1] = _read_value(c[0], c[1], False, None)      # the push
+        t0 = time.time()
+        for c in sorted(conns, key=lambda c: c[2]):
+            s, buf, gap, i = c
+            d = t0 + gap - time.time()
+            if d > 0:
+                time.sleep(d)
+            try:
+                nonce = ("idle-nonce-%d" % i).encode()
+                s.sendall(server.encode(["PING", nonce]) + server.encode(["SET", "idle-key-%d" % i, "v"]) + server.encode(["GET", "idle-key-%d" % i]))
+                want = [("$", nonce), ("+", b"OK"), ("$", b"v")]
+                for w in want:
+                    v, buf = _read_value(s, buf, False, None)
+                    if v != w:
+                        problems.append({"kind": "reply-wrong", "conn": "subscriber", "cmd": "PING/SET/GET after %.1f s idle" % gap, "detail": "expected %r, got %r" % (w, v)})
+                        break
+                    stats["replies"] += 1
+            except Exception as e:
+                problems.append({"kind": "reply-missing", "conn": "subscriber", "cmd": "PING/SET/GET",
+                                 "detail": "a subscribed connection that received a push and then stayed idle for %.1f s gets no reply to its next commands (%s)" % (gap, repr(e)[:120])})
+        return problems, stats
+    finally:
+        srv.stop()
